@@ -62,3 +62,15 @@ Theorem C20_size_weighted_mean_refuted :
     ~ mv_eq (old_mean_update (nanmean_l old) old data) (nanmean_l (old ++ data)).
 Proof. exact old_mean_refuted. Qed.
 Print Assumptions C20_size_weighted_mean_refuted.
+
+(* Hierarchy children: after any history of parent filter changes, child
+   refreshes and queries (the ChildScalar object caches its array and its
+   summaries), a query made once the child has been refreshed after the last
+   filter change returns the NaN-ignoring summary of the selected events. *)
+Theorem C20_child_fresh_after_refresh :
+  forall (vals : list fv) (ops : list hop) (w : Z),
+    let s := hrun (hinit vals) ops in
+    h_changed s = false ->
+    fst (hquery s w) = spec_q (h_filt s) (h_vals s) w.
+Proof. exact child_fresh. Qed.
+Print Assumptions C20_child_fresh_after_refresh.
